@@ -1196,12 +1196,55 @@ fn trigger_scenarios(out: &mut Out) {
     // the same with a client whose request queue is full (try_ calls fail at once, blocking calls
     // wait and get through): the rebirth NCMD must still go out
     trigger_scenarios_with(out, "ip=1 bd=1 un=1 ud=1 um=1 rf=1 rs=1 to=100 cd=0 rq=1 q=1024 tf=1");
+    trigger_scenarios_no_reseq(out);
 }
 
 /// the timestamp an NDEATH payload carries: the arrival time (default), none (srad-eon's will), or the
 /// time the will was registered, i.e. before the session's NBIRTH (other Sparkplug implementations)
 fn will_ts(rng: &mut Rng) -> &'static str {
     *rng.pick(&["", "", " pts=-", " pts=1", " pts=999999", " pts=18446744073709551615"])
+}
+
+/// the triggers that do not depend on sequence numbers, with RESEQUENCING SWITCHED OFF (builder option
+/// `resequence_messages(false)`): the host must still hold the node stale and ask for a rebirth
+fn trigger_scenarios_no_reseq(out: &mut Out) {
+    let cfg = "ip=1 bd=1 un=1 ud=1 um=1 rf=1 rs=1 to=100 cd=0 rq=0 q=1024";
+    let t0 = 1_000_000u64;
+    let birth = format!("ev n1 nbirth ts={} bd=3 id=1 ans=ok", t0);
+    let db = format!("ev n1 dbirth dev=1 seq=1 ts={} id=2 ans=ok", t0 + 1);
+    let death = "ev n1 ndeath bd=3".to_string();
+    let scen: Vec<(&str, Vec<String>, String)> = vec![
+        ("noreseq:unknown-node-data", vec![], format!("ev n1 ndata seq=1 ts={} id=5 ans=ok", t0)),
+        ("noreseq:unknown-device-data", vec![birth.clone()], format!("ev n1 ddata dev=4 seq=1 ts={} id=5 ans=ok", t0 + 5)),
+        ("noreseq:node-data-while-stale", vec![birth.clone(), death.clone()], format!("ev n1 ndata seq=1 ts={} id=5 ans=ok", t0 + 50)),
+        ("noreseq:device-birth-while-node-stale", vec![birth.clone(), death.clone()], format!("ev n1 dbirth dev=1 seq=1 ts={} id=5 ans=ok", t0 + 50)),
+        ("noreseq:device-data-while-node-stale", vec![birth.clone(), db.clone(), death.clone()], format!("ev n1 ddata dev=1 seq=2 ts={} id=5 ans=ok", t0 + 50)),
+        ("noreseq:device-death-while-node-stale", vec![birth.clone(), db.clone(), death.clone()], format!("ev n1 ddeath dev=1 seq=2 ts={} id=5", t0 + 50)),
+        ("noreseq:node-data-after-host-offline", vec![birth.clone(), "offline".into(), "online".into()], format!("ev n1 ndata seq=1 ts={} id=5 ans=ok", t0 + 50)),
+        ("noreseq:device-data-while-device-stale", vec![birth.clone(), db.clone(), format!("ev n1 ddeath dev=1 seq=2 ts={} id=3", t0 + 2)], format!("ev n1 ddata dev=1 seq=3 ts={} id=5 ans=ok", t0 + 50)),
+        ("noreseq:store-rejects-node-data", vec![birth.clone()], format!("ev n1 ndata seq=1 ts={} id=5 ans=inv", t0 + 5)),
+        ("noreseq:ndeath-bdseq-mismatch", vec![birth.clone()], "ev n1 ndeath bd=9".into()),
+    ];
+    for (name, setup, trigger) in scen {
+        let mut c = Case::begin(out, cfg, t0);
+        c.out.set_desc(format!("trigger {}", name));
+        for s in &setup {
+            c.op(s);
+        }
+        let before = c.sess.ncmds;
+        let a = c.op(&trigger);
+        let got = c.sess.ncmds - before;
+        let stale_after = c.sess.node_life.get("n1") != Some(&true);
+        if got != 1 || !stale_after {
+            c.out.fail(
+                "C07:trigger-requests-rebirth",
+                name,
+                format!("trigger `{}` produced {} NCMD(s), node held stale afterwards: {} (effects {})", trigger, got, stale_after, a),
+            );
+        }
+        c.out.nontrivial();
+        c.out.count("trigger-scenario");
+    }
 }
 
 fn trigger_scenarios_with(out: &mut Out, cfg: &str) {
@@ -1475,6 +1518,75 @@ fn fast_node_clock_replay_scenario(out: &mut Out) {
     }
 }
 
+
+/// The UNMOCKED clock. Every other case drives `srad_types::utils::timestamp()` through the verif-hooks mock,
+/// which returns before the real implementation is reached: a change to the real clock function, or one that
+/// only matters when the clock is the real one, would be invisible. Here the mock is switched off:
+/// (1) `timestamp()` is the wall clock in milliseconds, also after a burst of calls (a co-located publisher
+/// stamping a batch of metrics); (2) a session, its NDEATH and the next session, all stamped by the real
+/// clock: the data of the new session is applied (C05: none withheld or silently dropped; C06/C07: the host's
+/// own staleness stamp must not lie in the future of the publisher's clock). No model lines (the model's
+/// clock is the `now=` of a request); direct oracles only.
+fn real_clock_scenario(out: &mut Out) {
+    use srad_types::utils::{timestamp, verif_hooks};
+    use std::time::{SystemTime, UNIX_EPOCH};
+    let wall = || SystemTime::now().duration_since(UNIX_EPOCH).unwrap().as_millis() as u64;
+    let cfg = cfg_default("-", 0, 1);
+    let mut c = Case::begin(out, &cfg, 1_000_000);
+    c.out.set_desc("real-clock".into());
+    verif_hooks::set_mock_timestamp(None);
+    verif_hooks::set_mock_wall(None);
+    let rt = c.sess.rt.take().expect("own runtime");
+    let feed = |sess: &mut Sess, body: String| -> Vec<(String, String)> {
+        let op = format!("host {} now=0", body);
+        let w: Vec<&str> = op.split(' ').collect();
+        let ev = sess.build_event(&w, wall()).expect("event");
+        sess.push(ev);
+        rt.block_on(ev_tick());
+        sess.effects()
+    };
+    let burst = || {
+        let before = wall();
+        let mut last = 0u64;
+        for _ in 0..50_000 {
+            last = timestamp();
+        }
+        (before, last, wall())
+    };
+    let mut log: Vec<String> = vec![];
+    let t1 = wall();
+    log.push(format!("{:?}", feed(&mut c.sess, format!("ev n1 nbirth ts={} bd=3 id=1 ans=ok", t1))));
+    log.push(format!("{:?}", feed(&mut c.sess, format!("ev n1 ndata seq=1 ts={} id=2 ans=ok", wall()))));
+    let (before, last, after) = burst();
+    if last + 1 < before || last > after + 1 {
+        for p in ["C05", "C06", "C07", "C14"] {
+            c.out.fail(&format!("{}:real-clock-timestamp", p), "timestamp-is-not-the-wall-clock", format!("after 50000 calls timestamp() = {} while the wall clock went from {} to {}", last, before, after));
+        }
+    }
+    log.push(format!("{:?}", feed(&mut c.sess, "ev n1 ndeath bd=3 pts=-".to_string())));
+    std::thread::sleep(Duration::from_millis(3));
+    let t2 = wall().max(t1 + 1);
+    log.push(format!("{:?}", feed(&mut c.sess, format!("ev n1 nbirth ts={} bd=4 id=3 ans=ok", t2))));
+    let mut applied = 0;
+    for (k, id) in [(1u64, 4u64), (2, 5), (3, 6)] {
+        let e = feed(&mut c.sess, format!("ev n1 ndata seq={} ts={} id={} ans=ok", k, wall().max(t2), id));
+        if e.iter().any(|(n, x)| n == "n1" && *x == format!("nodeData({})", id)) {
+            applied += 1;
+        }
+        log.push(format!("{:?}", e));
+    }
+    if applied != 3 {
+        let d = format!("NBIRTH, NDATA, burst of timestamp() calls, NDEATH, NBIRTH, 3 x NDATA under the real clock: {} of 3 data messages of the new session applied; effects per step {:?}", applied, log);
+        c.out.fail("C05:prompt-apply", "real-clock:new-session-after-stale", d.clone());
+        c.out.fail("C06:real-clock-timestamp", "real-clock:new-session-after-stale", d.clone());
+        c.out.fail("C07:real-clock-timestamp", "real-clock:new-session-after-stale", d);
+    }
+    c.sess.rt = Some(rt);
+    set_clocks(c.now);
+    c.out.nontrivial();
+    c.out.count("real-clock");
+}
+
 /// C20, last sentence, host side: `AppClient::try_publish_metrics` uses only the client's non-blocking
 /// calls - with a client that parks every blocking call it still returns at once, for node and device
 /// command topics (no model line: a direct check of the real call)
@@ -1551,6 +1663,7 @@ pub fn run(args: &Args, out: &mut Out) -> &'static str {
     invalid_unknown_node_scenario(out);
     small_timestamp_scenario(out);
     fast_node_clock_replay_scenario(out);
+    real_clock_scenario(out);
     app_try_publish_scenario(out);
     // (c) exhaustive soups
     let l = if th { 4 } else { 3 };
